@@ -140,16 +140,21 @@ example : (Arith.ciPrep (Arith.fromList [inj 1, inj 2, inj 4] : Arith Rex) :
   rw [Arith.ciPrep_of_finite _ h rfl rfl]; rfl
 
 /-- `Unpaired::ci_mean` hands on the documented effective degrees of freedom
-    `S²/(A²/(n_a+1) + B²/(n_b+1)) − 1 − 1`, `A = s_a²/n_a`, `B = s_b²/n_b`, `S = A + B`, computed in the
-    data type and then widened, with `sem = sqrt(S)` — on every carrier -/
+    `S²/(A²/(n_a+1) + B²/(n_b+1)) − 1 − 1`, `A = s_a²/n_a`, `B = s_b²/n_b`, `S = A + B`, where `A`, `B`
+    are computed in the data type and the formula is evaluated in the wide type on the widened `A`,
+    `B`, `n_a`, `n_b`; `sem = sqrt(A + B)` is computed in the data type and then widened — on every
+    carrier -/
 theorem unpaired_dof {F W : Type} [Scalar F] [Scalar W] [Widen F W] (u : Unpaired F)
     (p : Arith.Prep W) (h : (Unpaired.ciPrep u : Outcome (Err W) (Arith.Prep W)) = .ok p) :
     let A : F := div (mul u.a.stdDev u.a.stdDev) (Scalar.ofNat u.a.count)
     let B : F := div (mul u.b.stdDev u.b.stdDev) (Scalar.ofNat u.b.count)
     let S : F := add A B
-    p.dof = Widen.up (sub (sub (div (mul S S)
-        (add (div (mul A A) (add (Scalar.ofNat u.a.count) one))
-             (div (mul B B) (add (Scalar.ofNat u.b.count) one)))) one) one) ∧
+    let A' : W := Widen.up A
+    let B' : W := Widen.up B
+    let S' : W := add A' B'
+    p.dof = sub (sub (div (mul S' S')
+        (add (div (mul A' A') (add (Widen.up (Scalar.ofNat u.a.count : F)) one))
+             (div (mul B' B') (add (Widen.up (Scalar.ofNat u.b.count : F)) one)))) one) one ∧
     p.sem = Widen.up (sqrt S) ∧ p.mean = Widen.up (sub u.a.mean u.b.mean) ∧
     2 ≤ u.a.count ∧ 2 ≤ u.b.count := by
   obtain ⟨h1, h2, _, _, rfl⟩ := Unpaired.ciPrep_eq_ok h
@@ -363,7 +368,7 @@ theorem unpaired_uses_effective_dof {F W : Type} [Scalar F] [Scalar W] [Widen F 
     (crit : Crit W) (u : Unpaired F) (conf : Confidence W) (i : Interval F)
     (h : Unpaired.ciMean crit u conf = .ok i) :
     ∃ p : Arith.Prep W, (Unpaired.ciPrep u : Outcome (Err W) (Arith.Prep W)) = .ok p ∧
-      p.dof = Widen.up (Unpaired.dofF u) ∧
+      p.dof = Unpaired.dofW u ∧
       intervalBounds crit conf p.mean p.sem p.dof =
         .ok (sub p.mean (mul (crit (critReq conf p.dof)) p.sem),
              add p.mean (mul (crit (critReq conf p.dof)) p.sem)) := by
@@ -398,6 +403,7 @@ theorem unpaired_ok_bounds (crit : Crit Rex) (u : Unpaired Rex) (conf : Confiden
   obtain ⟨h1, h2, h3, h4, _⟩ := Unpaired.ciMean_eq_ok h
   have hnp : (Unpaired.ciMean crit u conf).isPanic = false := by rw [h]; rfl
   have hiff := Unpaired.ciMean_isPanic_iff crit u conf
+  rw [Unpaired.dofW_eq_dofF_RR] at hiff
   have hq : probOk conf.quantile = true := by
     by_contra hq
     have := hiff.mpr ⟨h1, h2, h3, h4, Or.inr (by simpa using hq)⟩
@@ -408,7 +414,8 @@ theorem unpaired_ok_bounds (crit : Crit Rex) (u : Unpaired Rex) (conf : Confiden
     have := hiff.mpr ⟨h1, h2, h3, h4, Or.inl ⟨by simpa [populationLimit_val] using hlt, by
       rw [← Bool.not_eq_true, RR.gt_iff]; simpa using hd⟩⟩
     rw [hnp] at this; cases this
-  rw [Unpaired.ciMean_eq crit u conf h1 h2 h3 h4 hq (fun _ => by simpa using hd)] at h
+  rw [Unpaired.ciMean_eq crit u conf h1 h2 h3 h4 hq
+    (fun _ => by rw [Unpaired.dofW_eq_dofF_RR]; simpa using hd)] at h
   obtain ⟨k1, ku, kl⟩ := intervalOfKind_eq_ok h
   exact ⟨hd, hq, fun hk => (k1 hk).1, ku, kl⟩
 
